@@ -3,7 +3,7 @@
 Layer (b): battery bench with an owned noise tape (S4). Layer (a): 0 <= rate <= pilot in whole simulations."""
 from .. import sut, world, driver
 from ..engine import Outcome
-from ..rng import digest
+from ..rng import digest, sub
 from ..shrink import ops_candidates, world_candidates
 from ..bench_battery import gen_bench, run_bench
 from ..worldprop import base_outcome, completion
@@ -18,7 +18,8 @@ RULE = ("4 of 5 runs: battery bench (1-200 charge()/reset() calls on one battery
         "pilots 0, 1e-9 .. 10x max); 1 of 5: whole simulations with noisy batteries; non-trivial = sequence crosses the "
         "transition SoC or reaches >= 99.9% SoC; distinct = distinct (battery class, calc, noise?, tape, crossing pattern)")
 PROBES = ["crossed_transition", "reached_99_9", "noise_draw", "extreme_tape", "pilot_above_max", "tiny_pilot",
-          "exactly_full_start", "world_runs", "stepwise_tail_noise", "long_period_call", "pilot_just_off_a_finite_level", "second_life", "refused_reset", "stochastic_network_world"]
+          "exactly_full_start", "world_runs", "stepwise_tail_noise", "long_period_call", "pilot_just_off_a_finite_level", "second_life", "refused_reset", "stochastic_network_world",
+          "control_loop_runs", "short_form_unplug_of_attached_vehicle", "session_without_id_unplugged", "network_json_roundtrip", "network_deepcopy"]
 FAULT_DIMENSION = "adversarial noise tape (the system's own randomness is the fault surface)"
 REAL_VS_STUB = "real: Battery, Linear2StageBattery, EV, EVSE, Simulator; ours: numpy.random.normal tape"
 ASSUMPTIONS = ["tolerances: 1e-9 relative + 1e-9 absolute on rate/power/charge comparisons",
@@ -28,6 +29,8 @@ P_WORLD = world.profile(second_life=0.25, periods=[1, 5, 5, 7.5, 15, 60, 120], n
 
 
 def candidates(sc):
+    if sc.get("loop"):
+        return loop_candidates(sc)
     if "ops" in sc:
         return ops_candidates(sc, "ops")
     return world_candidates(sc)
@@ -38,7 +41,148 @@ P_STOCH = world.profile(net="stochastic", stations=(1, 4), periods=[1, 5, 5, 15,
                         stoch_early=0.4)
 
 
+def loop_candidates(sc):
+    import copy
+    for i in range(len(sc["ops"])):
+        c = copy.deepcopy(sc)
+        del c["ops"][i]
+        yield c
+
+
+def gen_loop(rs):
+    """A caller's own control loop over the network's public API (no Simulator): vehicles are attached and detached through every
+    documented form of plugin / unplug, pilots go out through update_pilots, the network may be saved and reloaded in between."""
+    from ..bench_battery import gen_bench as gb
+    r = sub(rs, "c03loop")
+    n = r.randint(1, 5)
+    stations = [{"id": r.choice(["S%d", "CA-%d", "%d"]) % (300 + i), "max_rate": r.choice([16, 32, 32, 80]), "voltage": r.choice([120, 208, 208, 240]),
+                 "kind": r.choice(["cont", "cont", "deadband"])} for i in range(n)]
+    if len({s_["id"] for s_ in stations}) < n:
+        for i, s_ in enumerate(stations):
+            s_["id"] = "S%d" % i
+    period = r.choice([1, 5, 5, 15, 60])
+    ops, k = [], 0
+    for _ in range(r.randint(4, 40)):
+        u = r.random()
+        st = r.randrange(n)
+        if u < 0.25:
+            b = gb(rs * 131 + k, True, "quick")["battery"]
+            ops.append({"op": "plugin", "station": st, "session": r.choice(["sess%d" % k, k, None]) if r.random() < 0.3 else "sess%d" % k,
+                        "battery": b, "requested": round(r.uniform(0.5, 60), 3), "legacy_station_arg": r.random() < 0.15})
+            k += 1
+        elif u < 0.45:
+            ops.append({"op": r.choice(["unplug_short", "unplug_short", "unplug_id", "unplug_wrong_id"]), "station": st})
+        elif u < 0.5:
+            ops.append({"op": r.choice(["roundtrip", "deepcopy"])})
+        else:
+            ops.append({"op": "step", "pilots": [r.choice([0, 0, r.uniform(6, s_["max_rate"]), s_["max_rate"], 6, 8, 16]) for s_ in stations]})
+    return {"seed": rs, "loop": True, "stations": stations, "period": period, "ops": ops, "tapes": {"noise": r.choice(["prng", "extreme", "alt"])}}
+
+
+def check_loop(sc):
+    import copy
+    import warnings
+    from ..bench_battery import Tape
+    from ..build import build_battery
+    np = sut.np
+    out = Outcome()
+    out.probe("control_loop_runs")
+    tape = Tape(sc)
+    orig = np.random.normal
+    np.random.normal = tape
+    log = []
+    try:
+        with warnings.catch_warnings():
+            warnings.simplefilter("ignore")
+            nw = sut.ChargingNetwork()
+            for s_ in sc["stations"]:
+                cls = sut.DeadbandEVSE if s_["kind"] == "deadband" else sut.EVSE
+                nw.register_evse(cls(s_["id"], max_rate=s_["max_rate"]), s_["voltage"], 0)
+            sent = [0.0] * len(sc["stations"])
+            t = 0
+
+            def judge(i_op, what):
+                rates = nw.current_charging_rates
+                for j, s_ in enumerate(sc["stations"]):
+                    rt = float(rates[j])
+                    if rt < -1e-9 or rt > sent[j] * (1 + 1e-9) + 1e-9:
+                        out.add("C03/network_rate_bounds", "op %d (%s): station %s reports a charging current of %r A, last pilot sent %r A (vehicle attached: %r)"
+                                % (i_op, what, s_["id"], rt, sent[j], nw.get_ev(s_["id"]) is not None))
+                        return False
+                    if 0 < rt < sent[j]:
+                        out.nontrivial = True
+                log.append([round(float(x), 9) for x in rates])
+                return True
+            for i_op, op in enumerate(sc["ops"]):
+                sid = sc["stations"][op["station"]]["id"] if "station" in op else None
+                kind = op["op"]
+                if kind == "plugin":
+                    if nw.get_ev(sid) is not None:
+                        continue
+                    batt = build_battery(op["battery"])
+                    room = float(batt._capacity - batt._current_charge)
+                    ev = sut.EV(t, t + 1000, min(op["requested"], max(room, 0.0)), sid, op["session"], batt)
+                    if op["legacy_station_arg"]:
+                        nw.plugin(ev, sid)
+                    else:
+                        nw.plugin(ev)
+                    sent[op["station"]] = 0.0
+                    out.probe("loop_plugin")
+                elif kind.startswith("unplug"):
+                    cur = nw.get_ev(sid)
+                    if kind == "unplug_short":
+                        nw.unplug(sid)
+                        if cur is not None:
+                            out.probe("short_form_unplug_of_attached_vehicle")
+                        sent[op["station"]] = 0.0
+                    elif kind == "unplug_id":
+                        if cur is not None and cur.session_id is not None:
+                            nw.unplug(sid, cur.session_id)
+                            sent[op["station"]] = 0.0
+                        elif cur is not None:
+                            nw.unplug(sid, None)
+                            out.probe("session_without_id_unplugged")
+                            sent[op["station"]] = 0.0
+                        else:
+                            nw.unplug(sid, "nobody")
+                    else:
+                        nw.unplug(sid, "not-the-session-here")          # refused with a warning: nothing changes
+                        out.probe("unplug_with_wrong_session_refused")
+                    if kind != "unplug_wrong_id" and nw.get_ev(sid) is not None:
+                        out.add("C03/unplug_ignored", "op %d: %s left a vehicle attached at %s" % (i_op, kind, sid))
+                        break
+                elif kind == "roundtrip":
+                    nw = sut.ChargingNetwork.from_json(nw.to_json())
+                    out.probe("network_json_roundtrip")
+                elif kind == "deepcopy":
+                    nw = copy.deepcopy(nw)
+                    out.probe("network_deepcopy")
+                else:
+                    m = np.zeros((len(sc["stations"]), t + 1))
+                    for j, p_ in enumerate(op["pilots"]):
+                        m[j, t] = p_
+                    nw.update_pilots(m, t, sc["period"])
+                    sent = [float(p_) for p_ in op["pilots"]]
+                    t += 1
+                if not judge(i_op, kind):
+                    break
+    except Exception as x:
+        from ..driver import classify_exception
+        if classify_exception(x) == "harness":
+            raise
+        out.add("C03/exception:" + type(x).__name__, str(x)[:200])
+    finally:
+        np.random.normal = orig
+    out.probe("noise_draw", tape.n)
+    out.sig = digest(("loop", len(sc["stations"]), sorted(out.probes)))
+    out.digest = digest(log)
+    out.calls = len(log)
+    return out
+
+
 def gen(rs, tier):
+    if rs % 5 == 0 and (rs // 5) % 4 == 1:
+        return gen_loop(rs)
     if rs % 5 == 0:
         # (one world in four on the contributed StochasticNetwork: vehicles wait and are swapped into freed spaces)
         return world.gen_world(rs, P_STOCH if (rs // 5) % 4 == 0 else P_WORLD)
@@ -46,6 +190,8 @@ def gen(rs, tier):
 
 
 def check(sc):
+    if sc.get("loop"):
+        return check_loop(sc)
     if "ops" not in sc:
         return check_world(sc)
     out = Outcome()
